@@ -1,6 +1,8 @@
 package reloaderx
 
 import (
+	"bytes"
+	"compress/gzip"
 	"context"
 	"fmt"
 	"math/rand"
@@ -14,6 +16,8 @@ import (
 	"sync"
 	"testing"
 	"time"
+
+	"github.com/prometheus/client_golang/prometheus"
 
 	"github.com/thanos-io/thanos/pkg/reloader"
 
@@ -33,13 +37,28 @@ var contents = map[string]string{
 }
 var envValues = []string{"v1", "v2", "v3"}
 
+// phase 2: gzip-compressed inputs; content id xz is the gzip of x (Reloader.tla: GzBase).
+func init() {
+	for _, id := range []string{"p1", "e1"} {
+		var b bytes.Buffer
+		zw := gzip.NewWriter(&b)
+		zw.Write([]byte(contents[id]))
+		zw.Close()
+		contents[id+"z"] = b.String()
+	}
+}
+
 func usesEnv(c string) bool { return strings.HasPrefix(c, "e") }
+func isGz(c string) bool    { return strings.HasSuffix(c, "z") }
 
 // decodeOut maps the bytes of an output file back to (content id, substituted env value);
 // ("?","") when the bytes are not the expansion of any known content.
 func decodeOut(b []byte) (string, string) {
 	s := string(b)
 	for id, tpl := range contents {
+		if isGz(id) {
+			continue // outputs are never compressed
+		}
 		if !usesEnv(id) {
 			if s == tpl {
 				return id, ""
@@ -93,6 +112,8 @@ func newWorld(root string) (*world, error) {
 	return w, nil
 }
 
+var skipTmp bool
+
 func listDir(dir string, dec func([]byte) map[string]any) []any {
 	out := []any{}
 	es, _ := os.ReadDir(dir)
@@ -102,6 +123,9 @@ func listDir(dir string, dec func([]byte) map[string]any) []any {
 	}
 	sort.Strings(names)
 	for _, n := range names {
+		if skipTmp && strings.HasSuffix(n, ".tmp") {
+			continue // normalize() writes <output>.tmp and renames it; only seen while Watch runs concurrently
+		}
 		b, err := os.ReadFile(filepath.Join(dir, n))
 		if err != nil {
 			continue
@@ -165,7 +189,7 @@ func (ep *endpoint) ServeHTTP(rw http.ResponseWriter, _ *http.Request) {
 }
 
 func randHistory(r *rand.Rand) vt.Case {
-	ids := []string{"p1", "p2", "p3", "e1", "e2"}
+	ids := []string{"p1", "p2", "p3", "e1", "e2", "p1z", "e1z"}
 	dn := []string{"a", "b", "c", "d", "z"}[:2+r.Intn(4)] // c and z live in the second config directory
 	wn := []string{"w1", "w2"}[:r.Intn(3)]
 	cfg, env := ids[r.Intn(len(ids))], envValues[r.Intn(len(envValues))]
@@ -210,6 +234,235 @@ func randHistory(r *rand.Rand) vt.Case {
 	}
 	c["ops"] = ops
 	return c
+}
+
+// ---- phase 2: scenarios on the real Watch loop ----
+
+// cmDir maintains a directory the way the kubelet materialises a ConfigMap: the files live in a
+// timestamped directory, ..data is a symlink to it, the visible names are symlinks through ..data;
+// an update writes a new timestamped directory and flips ..data with an atomic rename.
+type cmDir struct {
+	dir string
+	gen int
+}
+
+func (c *cmDir) flip(files map[string]string) error {
+	c.gen++
+	ts := fmt.Sprintf("..2026_09_22_%04d", c.gen)
+	if err := os.MkdirAll(filepath.Join(c.dir, ts), 0o755); err != nil {
+		return err
+	}
+	for n, id := range files {
+		if err := os.WriteFile(filepath.Join(c.dir, ts, n), []byte(contents[id]), 0o644); err != nil {
+			return err
+		}
+	}
+	old, _ := os.Readlink(filepath.Join(c.dir, "..data"))
+	if err := os.Symlink(ts, filepath.Join(c.dir, "..data_tmp")); err != nil {
+		return err
+	}
+	if err := os.Rename(filepath.Join(c.dir, "..data_tmp"), filepath.Join(c.dir, "..data")); err != nil {
+		return err
+	}
+	for n := range files {
+		if _, err := os.Lstat(filepath.Join(c.dir, n)); err != nil {
+			if err := os.Symlink(filepath.Join("..data", n), filepath.Join(c.dir, n)); err != nil {
+				return err
+			}
+		}
+	}
+	es, _ := os.ReadDir(c.dir)
+	for _, e := range es {
+		if strings.HasPrefix(e.Name(), "..") {
+			continue
+		}
+		if _, ok := files[e.Name()]; !ok {
+			os.Remove(filepath.Join(c.dir, e.Name()))
+		}
+	}
+	if old != "" {
+		os.RemoveAll(filepath.Join(c.dir, old))
+	}
+	return nil
+}
+
+type watchEndpoint struct {
+	mu       sync.Mutex
+	failNext int
+	calls    int
+	oks      int
+	atok     map[string]any
+	w        *world
+}
+
+func (ep *watchEndpoint) ServeHTTP(rw http.ResponseWriter, _ *http.Request) {
+	ep.mu.Lock()
+	defer ep.mu.Unlock()
+	ep.calls++
+	if ep.failNext > 0 {
+		ep.failNext--
+		http.Error(rw, "reload failed", http.StatusInternalServerError)
+		return
+	}
+	ep.oks++
+	ep.atok = ep.w.outs()
+	rw.WriteHeader(http.StatusOK)
+}
+
+func applyCycles(reg *prometheus.Registry) float64 {
+	mfs, _ := reg.Gather()
+	for _, mf := range mfs {
+		if mf.GetName() == "reloader_config_apply_operations_total" && len(mf.Metric) > 0 {
+			return mf.Metric[0].GetCounter().GetValue()
+		}
+	}
+	return 0
+}
+
+func randWatchScenario(r *rand.Rand) vt.Case {
+	ids := []string{"p1", "p2", "p3", "e1", "e2", "p1z"}
+	var steps []any
+	files := map[string]any{"a": "p1"}
+	for n := 3 + r.Intn(3); n > 0; n-- {
+		switch r.Intn(6) {
+		case 0, 1, 2: // ConfigMap update: add / edit / remove files, ..data flips
+			nf := map[string]any{}
+			for k, v := range files {
+				if r.Intn(4) > 0 {
+					nf[k] = v
+				}
+			}
+			nf[[]string{"a", "b", "d"}[r.Intn(3)]] = ids[r.Intn(len(ids))]
+			files = nf
+			cp := map[string]any{}
+			for k, v := range nf {
+				cp[k] = v
+			}
+			steps = append(steps, map[string]any{"op": "flip", "f": "", "c": "", "files": cp, "fails": r.Intn(3) * r.Intn(2)})
+		case 3: // the main config file replaced atomically (rename) or rewritten in place
+			steps = append(steps, map[string]any{"op": []string{"cfgrename", "cfgwrite"}[r.Intn(2)], "f": "", "c": ids[r.Intn(len(ids))], "files": map[string]any{}, "fails": r.Intn(3) * r.Intn(2)})
+		case 4: // a rule file in the watched directory
+			steps = append(steps, map[string]any{"op": "wat", "f": []string{"w1", "w2"}[r.Intn(2)], "c": ids[r.Intn(len(ids))], "files": map[string]any{}, "fails": 0})
+		default:
+			steps = append(steps, map[string]any{"op": "idle", "f": "", "c": "", "files": map[string]any{}, "fails": 0})
+		}
+	}
+	return vt.Case{"watch": true, "cfg0": "p1", "env0": envValues[r.Intn(len(envValues))], "steps": steps}
+}
+
+const stallDeadline = 90 * time.Second // stall detection only: a settle normally takes two apply cycles
+
+// runWatch runs one scenario against Reloader.Watch with the real fsnotify watcher, a short watch
+// interval and retry interval. After every change the driver waits (in apply cycles, not in wall
+// time) until two further cycles have started and the endpoint is no longer told to fail, then
+// records what is on disk and what the endpoint saw.
+func runWatch(t *testing.T, tr *vt.Tracer, base string, caseID int, c vt.Case) {
+	c = vt.Normalize(c)
+	skipTmp = true
+	defer func() { skipTmp = false }()
+	root := filepath.Join(base, fmt.Sprint("w", caseID))
+	w, err := newWorld(root)
+	if err != nil {
+		t.Fatal(err)
+	}
+	defer os.RemoveAll(root)
+	env := vt.Str(c["env0"])
+	os.Setenv(envVar, env)
+	if err := os.WriteFile(w.cfgIn, []byte(contents[vt.Str(c["cfg0"])]), 0o644); err != nil {
+		t.Fatal(err)
+	}
+	cm := &cmDir{dir: w.dirIn[0]}
+	if err := cm.flip(map[string]string{"a": "p1"}); err != nil {
+		t.Fatal(err)
+	}
+	ep := &watchEndpoint{w: w}
+	srv := httptest.NewServer(ep)
+	defer srv.Close()
+	u, _ := url.Parse(srv.URL)
+	reg := prometheus.NewRegistry()
+	rl := reloader.New(nil, reg, &reloader.Options{
+		ReloadURL: u, CfgFile: w.cfgIn, CfgOutputFile: w.cfgOut,
+		CfgDirs:     []reloader.CfgDirOption{{Dir: w.dirIn[0], OutputDir: w.dirOut[0]}, {Dir: w.dirIn[1], OutputDir: w.dirOut[1]}},
+		WatchedDirs: []string{w.watIn}, WatchInterval: 100 * time.Millisecond, RetryInterval: 10 * time.Millisecond, DelayInterval: 5 * time.Millisecond,
+	})
+	ctx, cancel := context.WithCancel(context.Background())
+	done := make(chan error, 1)
+	go func() { done <- rl.Watch(ctx) }()
+	defer func() { cancel(); <-done }()
+
+	tr.Emit(vt.Event{"ev": "case", "case": caseID, "in": c, "kf": ""})
+	// waitCycles waits until n further apply cycles have started and the endpoint's failure budget is used up.
+	waitCycles := func(n float64) bool {
+		dl := time.Now().Add(stallDeadline)
+		c0 := applyCycles(reg)
+		for time.Now().Before(dl) {
+			ep.mu.Lock()
+			failing := ep.failNext > 0
+			ep.mu.Unlock()
+			if failing {
+				c0 = applyCycles(reg)
+			} else if applyCycles(reg) >= c0+n {
+				return true
+			}
+			select {
+			case err := <-done:
+				done <- err
+				return false
+			case <-time.After(5 * time.Millisecond):
+			}
+		}
+		return false
+	}
+	snapshot := func() map[string]any { return vt.Normalize(vt.Case(w.ins())) }
+	waitCycles(2) // initial sync
+	last := fmt.Sprint(snapshot())
+	for _, x := range vt.List(c["steps"]) {
+		st := vt.Map(x)
+		op := vt.Str(st["op"])
+		ep.mu.Lock()
+		ep.failNext = vt.Int(st["fails"])
+		calls0, oks0 := ep.calls, ep.oks
+		ep.mu.Unlock()
+		if op == "idle" {
+			ok := waitCycles(2)
+			ep.mu.Lock()
+			tr.Emit(vt.Event{"ev": "WIdle", "case": caseID, "calls": ep.calls - calls0, "waited": ok})
+			ep.mu.Unlock()
+			continue
+		}
+		switch op {
+		case "flip":
+			files := map[string]string{}
+			for k, v := range vt.Map(st["files"]) {
+				files[k] = vt.Str(v)
+			}
+			if err := cm.flip(files); err != nil {
+				t.Fatal(err)
+			}
+		case "cfgrename":
+			tmp := w.cfgIn + ".new"
+			os.WriteFile(tmp, []byte(contents[vt.Str(st["c"])]), 0o644)
+			os.Rename(tmp, w.cfgIn)
+		case "cfgwrite":
+			os.WriteFile(w.cfgIn, []byte(contents[vt.Str(st["c"])]), 0o644)
+		case "wat":
+			os.WriteFile(filepath.Join(w.watIn, vt.Str(st["f"])), []byte(contents[vt.Str(st["c"])]), 0o644)
+		default:
+			t.Fatalf("unknown watch op %q", op)
+		}
+		tr.Emit(vt.Event{"ev": "WChange", "case": caseID, "op": op, "f": vt.Str(st["f"]), "c": vt.Str(st["c"])})
+		settled := waitCycles(2)
+		now := fmt.Sprint(snapshot())
+		ep.mu.Lock()
+		atok := ep.atok
+		if atok == nil || ep.oks == oks0 {
+			atok = noOuts()
+		}
+		tr.Emit(vt.Event{"ev": "WSettle", "case": caseID, "changed": now != last, "calls": ep.calls - calls0, "oks": ep.oks - oks0,
+			"ins": w.ins(), "env": env, "outs": w.outs(), "atok": atok, "waited": settled})
+		ep.mu.Unlock()
+		last = now
+	}
 }
 
 // TestC47 replays histories (from TLC and seeded random longer ones) on a real Reloader: the
@@ -303,8 +556,16 @@ func TestC47(t *testing.T) {
 		}
 	}
 
+	runW := func(c vt.Case) {
+		caseID++
+		runWatch(t, tr, base, caseID, c)
+	}
 	if rc := vt.Replay(t); rc != nil {
-		run(rc)
+		if _, ok := rc["watch"]; ok {
+			runW(rc)
+		} else {
+			run(rc)
+		}
 		return
 	}
 	for _, c := range vt.TLCCases(t) {
@@ -313,6 +574,9 @@ func TestC47(t *testing.T) {
 	rnd := vt.Rand()
 	for i, n := 0, vt.Pick(400, 2500); i < n; i++ {
 		run(randHistory(rnd))
+	}
+	for i, n := 0, vt.Pick(3, 40); i < n; i++ {
+		runW(randWatchScenario(rnd))
 	}
 	if caseID == 0 {
 		t.Fatal("no cases")
